@@ -20,7 +20,7 @@ def register(PROPS):
                  'reported.  The reference model is the union of the occurrence lists of the constituents (each obtained by draining a '
                  'separately parsed copy of that constituent alone), sorted by start, an occurrence with the same UID and instant in '
                  'several constituents kept once; occurrences of different UIDs at one instant may come in either order.  After every '
-                 'prefix the stream is cloned and the clone must deliver what the original goes on to deliver.  A further driver (c02_zonemix, mode rdate) feeds RDATE lists whose values are written in different forms (UTC / three fixed-offset zones, every assignment) and requires the stream to be non-decreasing and complete.  A third driver (c03_forms) merges every subset of 2-3 (thorough 2-5) out of eight constituents whose occurrences are WRITTEN differently - all-day dates (daily and weekly), UTC date-times at 00:00:00, 12:00 and 23:59:59, local times of Europe/Berlin (across its DST switch), America/New_York and Asia/Tokyo that fall on or next to UTC midnight - by vmux in both orders and as one file, read by pops and by peek-pop pairs, each run and each reference reading in a freshly forked image: starts must be non-decreasing with an all-day occurrence starting at 00:00:00 of its day, the delivered (UID, start) multiset must be the union of what the constituents deliver alone, a peek must show what the next pop returns.',
+                 'prefix the stream is cloned and the clone must deliver what the original goes on to deliver.  A further driver (c02_zonemix, mode rdate) feeds RDATE lists whose values are written in different forms (UTC / three fixed-offset zones, every assignment) and requires the stream to be non-decreasing and complete.  A third driver (c03_forms) merges every subset of 2-3 (thorough 2-5) out of eight constituents whose occurrences are WRITTEN differently - all-day dates (daily and weekly), UTC date-times at 00:00:00, 12:00 and 23:59:59, local times of Europe/Berlin (across its DST switch), America/New_York and Asia/Tokyo that fall on or next to UTC midnight - by vmux in both orders and as one file, read by pops and by peek-pop pairs, each run and each reference reading in a freshly forked image: starts must be non-decreasing with an all-day occurrence starting at 00:00:00 of its day, the delivered (UID, start) multiset must be the union of what the constituents deliver alone, a peek must show what the next pop returns.  A fourth driver (c03_tworules, also registered for C07 and C16) compares an event that has two recurrence sources - 5 pairs of RRULEs that meet, interleave or are disjoint, in UTC and in four zones, at three times of day and in three seasons; an RRULE plus RDATE lists that repeat rule occurrences; RDATE lists whose members are written as dates, UTC date-times and TZID local times, every subset in every order - with the duplicate-free union of the events that carry one source each (strictly increasing), and the selection echs_instant_matches_p makes on a merged stream with the union of the selections on its constituents.',
         'note': 'Not covered: more than 4 constituents or 3 occurrences each, duplicates inside one constituent (not settled by the '
                 'property text), more than 2 consecutive peeks.  Clone is used as an oracle, it is not part of the property; clone defects '
                 'are reported under clone-*/crash signatures.',
@@ -47,6 +47,10 @@ def register(PROPS):
             D('c02_zonemix', ['mode=rdate', 'maxlist=4'], ['mode=rdate', 'maxlist=5'], label='zonemix-rdate', shards=4),
             D('c02_zonemix', ['mode=rdate', 'maxlist=3'], label='zonemix-rdate-asan', shards=4, variant='asan'),
             D('c03_forms', ['maxn=3'], ['maxn=5'], label='forms', shards=4),
+            D('c03_tworules', ['mode=rules'], label='two-sources-rules', shards=4),
+            D('c03_tworules', ['mode=rdates'], label='two-sources-rdates', shards=4),
+            D('c03_tworules', ['mode=filter'], label='filter-on-merged', shards=2),
+            D('c03_tworules', ['mode=rules'], label='two-sources-rules-asan', shards=4, variant='asan'),
             D('c03_forms', ['maxn=2'], ['maxn=3'], label='forms-asan', shards=4, variant='asan'),
             D('c03_mux', ['fam=plain', 'nmax=3', 'lmax=2'], ['fam=plain', 'nmax=3', 'lmax=3', '--deadline', '420'], label='plain'),
             # four streams: echs_evstrm_mux() overruns its 24-byte array from the 4th stream on (known finding); what a plain build does
